@@ -96,3 +96,23 @@ def epsOf (c : Case) : Rat := if c.isDouble then pow2 (-53) else pow2 (-24)
 def tinyOf (c : Case) : Rat := if c.isDouble then pow2 (-1074) else pow2 (-149)
 
 end Slu.Drv.CondUtil
+
+namespace Slu.Drv.CondUtil
+/-- the field operations of `Cx Rat`, so that the generic storage decoders (`CSC.get`,
+`LUFac.decodeL/decodeU`) can be evaluated exactly -/
+scoped instance : Zero Q := ⟨qz⟩
+scoped instance : One Q := ⟨q1⟩
+scoped instance : Add Q := ⟨qadd⟩
+instance : Inhabited Q := ⟨qz⟩
+
+/-- protocol decoder into exact complex rationals; inf/nan decode to an empty array -/
+def decQraw (cplx dbl : Bool) (raw : Array UInt64) : Array Q :=
+  if cplx then (cxRatsOf dbl raw).getD #[] else ((ratsOf dbl raw).map fun a => a.map fun x => (⟨x, 0⟩ : Q)).getD #[]
+
+def realQ (r : Rat) : Q := ⟨r, 0⟩
+/-- entrywise upper bound of the modulus, as a matrix -/
+def Mat.absHi (m : Mat) : Mat := m.map fun z => realQ (qmodHi z)
+def Mat.addM (a b : Mat) (r c : Nat) : Mat := Mat.ofFn r c fun i j => qadd (a.get i j) (b.get i j)
+def Mat.subM (a b : Mat) (r c : Nat) : Mat := Mat.ofFn r c fun i j => qsub (a.get i j) (b.get i j)
+def Mat.scaleM (a : Mat) (s : Rat) : Mat := a.map fun z => qscale z s
+end Slu.Drv.CondUtil
